@@ -169,6 +169,15 @@ check("C02", "exploration",
       "deterministic simulation with fault injection: seeded placement/schedule/fault/crash search; snapshot equality after every step and write-log scan",
       "§7 C02")
 
+check("C05", "exploration",
+      "Seeded deterministic simulation in W-claim of the real XR reconciler (both composers) and the real claim reconciler, with composed kinds served by real schema validation (one kind rejects applies that lack a required field), an external actor flipping composed resources' status, and scripted functions that mark resources ready by all/observed/field/none, mark the XR ready true/false/unset, emit conditions of system and custom types with both targets, and return warning or fatal results; P&T templates with readiness checks (None, MatchString, default condition) and required patches whose XR source may be missing. API faults, lost replies, conflicts, crashes. "
+      "Judged at the end of every XR reconcile that committed a status write, against the recorded function responses, the revision used and the write log of that very reconcile: Ready=True only if the pipeline marked the XR ready, or did not mark it unready and every desired resource is ready (P&T: recomputed by an independent readiness evaluator on the object as applied); "
+      "Synced=True only if every desired resource has a write committed without error in this reconcile and no template failed to render; no stored Ready/Synced/Healthy condition carries the marker the scripted functions put on forged conditions; after a fatal result custom conditions not re-asserted are Unknown and Synced is not True. "
+      "At every claim status write that turns Ready=True: the last XR version that reconcile observed (its read, or the answer to its own write) had Ready=True. C10's single fault-dependent clause rides along (signature prefix C10/): a template whose render failed gets no write in that reconcile.",
+      TB + " The property's quantifier is over inputs; the simulation contributes the fault-dependent outcomes (apply rejected, reconcile errors, interleaved status flips).",
+      "deterministic simulation with fault injection: seeded program/schedule/fault search; end-of-reconcile oracle over recorded function responses and the write/read log",
+      "§7 C05")
+
 def main():
     props = [json.loads(l)["id"] for l in open(os.path.join(V, "properties.jsonl"))]
     na = []
